@@ -1,8 +1,26 @@
 from vf.propdefs import COMMON_TRUST
 
+# Bounded stand-in (Kani, kani/kinterp/src/c14.rs) for the two iterator-adapter functions Verus cannot take.
+_KB = ("calldata of CONCRETE length 0..=4 with symbolic contents; access list of concrete shape in "
+       "{[], [0], [2], [1,2], [2,2]} storage keys per item (<= 2 items x <= 2 keys); SpecId symbolic over "
+       "{FRONTIER, HOMESTEAD, ISTANBUL, BERLIN, SHANGHAI, PRAGUE}; is_create symbolic; authorization_list_num "
+       "symbolic u64 <= (2^64-1-2^32)/25000 (overflow of the u64 sum excluded by assumption); oracle = EIP-2/2028/"
+       "2930/3860/7702 intrinsic gas + EIP-7623 floor with literal numbers, computed in u128")
+_KT = "calldata of CONCRETE length {n} (symbolic contents), is_istanbul symbolic; oracle zeros + nonzeros * (4 | 17)"
+_SHAPES = ["none", "0", "2", "1_2", "2_2"]
+# quick tier: every length and every shape once (a transversal of the 5 x 5 grid); the other 20 cells: thorough
+_QUICK = {(0, "1_2"), (1, "2_2"), (2, "none"), (3, "0"), (4, "2")}
+_KANI = [dict(crate="kinterp", harness=f"c14::c14_tokens_len{n}", bounded=True, bound=_KT.format(n=n), timeout=120, mem_gb=10)
+         for n in range(5)]
+_KANI += [dict(crate="kinterp", harness=f"c14::c14_initial_len{n}_al_{s}", bounded=True, bound=_KB, timeout=300, mem_gb=10,
+               **({} if (n, s) in _QUICK else {"thorough_only": True}))
+          for n in range(5) for s in _SHAPES]
+
 PROP = dict(
     level="proof",
+    engine="verus+kani",
     units=["gascalc"],
+    kani=_KANI,
     level_text="Every closed-form function of crates/interpreter/src/gas/calc.rs (sstore_refund, create2_cost, log2floor, "
                "exp_cost, verylowcopy_cost, extcodecopy_cost, log_cost, keccak256_cost, cost_per_word, initcode_cost, "
                "sload_cost, sstore_cost, istanbul_sstore_cost, frontier_sstore_cost, selfdestruct_cost, call_cost, "
@@ -15,10 +33,14 @@ PROP = dict(
                "(Yellow Paper, EIP-150/160/161/1014/1884/2200/2929/3529/3860/7623/7702); Option-returning functions are "
                "proved to return Some(v) iff the true integer v fits in u64. Unbounded: all u64 lengths, all 2^768 "
                "(original, present, new) triples, all flags.",
-    level_note="NOT under contract here: get_tokens_in_calldata and calculate_initial_tx_gas (Verus rejects "
-               "Filter::count / Map::sum iterator adapters; tried on 2026-09-21) -- the intrinsic-gas formula of C14 is "
-               "therefore NOT proved by this unit (Kani bounded harness planned); only their callees calc_tx_floor_cost and "
-               "initcode_cost are. Stated deviations from the EIP value, each an explicit clause of the contract (not a "
+    level_note="NOT proved: get_tokens_in_calldata and calculate_initial_tx_gas (Verus rejects Filter::count / Map::sum "
+               "iterator adapters; tried on 2026-09-21). The intrinsic-gas formula is only checked by BOUNDED Kani harnesses "
+               "on the real crate (kani/kinterp/src/c14.rs: calldata length <= 4, access list <= 2 x 2, six fork brackets, "
+               "both is_create, symbolic authorization count) -- reported under bounded_obligations, never counted as "
+               "proved; their callees calc_tx_floor_cost and initcode_cost are proved by Verus. "
+               "FINDINGS: the property-level contracts 'equals the specification for ALL arguments' are kept as finding "
+               "obligations (gascalc: *__finding_*, expected to fail, listed in known_findings.txt, never counted as "
+               "discharged). Stated deviations from the EIP value, each an explicit clause of the verified contract (not a "
                "weakening): (1) KNOWN FINDING num_words(len) is one word short of ceil(len/32) for len > 2^64-32, which "
                "propagates to keccak256/copy/create2/initcode/extcodecopy costs on that range only; (2) memory_gas is the "
                "Yellow Paper C_mem exactly for num_words < 2^32 and strictly BELOW it (but >= 2^55) beyond, because the "
@@ -30,6 +52,7 @@ PROP = dict(
                "as_limbs, u64::try_from over uval), vstd's u64 checked_/saturating_ arithmetic and leading_zeros specs; "
                "that the compiled SpecId::is_enabled_in / SStoreResult::is_* are the source text proved here (same crate, "
                "same run: the rlibs are built from the tree the text is extracted from).",
+    technique="Verus contracts on the extracted closed-form gas functions (unbounded); Kani bounded harnesses for the two iterator-adapter functions",
     trusted=COMMON_TRUST + [
         "units/prelude/ruint.rs: assumed contracts of ruint 1.12.3 (Uint::from, is_zero, PartialEq::eq, checked_add, "
         "checked_mul, as_limbs + little-endian limb axiom, u64::try_from, uval < 2^BITS)",
@@ -38,9 +61,20 @@ PROP = dict(
         "that the same unit proves on their extracted source (public inherent methods of external types cannot be shadowed)",
     ],
     assumptions=[
+        "FINDING num_words_top_range / keccak_top_range: num_words(len) == ceil(len/32) is verified exactly for len <= 2^64-32 "
+        "(u64::MAX-31); for larger len the code returns 2^59-1 (one word short) and keccak256/verylowcopy/extcodecopy/create2/"
+        "initcode costs are exact w.r.t. the EIPs on len <= 2^64-32 only (above: the EIP formula on one word less, stated in the contract)",
+        "FINDING memory_gas_over_2p32_words: memory_gas(w) == 3w + floor(w^2/512) is verified exactly for w < 2^32 words "
+        "(memory < 128 GiB); for w >= 2^32 the code returns sat(3w) + 2^55 - 1 saturated, which is proved to be >= 2^55 but strictly "
+        "BELOW the true cost (under-charge; the true cost stops fitting u64 at w ~ 9.7e10 but the code never saturates until 3w does)",
+        "FINDING call_cost_delegation_before_prague: call_cost equals the EIP value for every input with "
+        "is_delegate_account_cold == None or SpecId >= PRAGUE or SpecId < BERLIN; for BERLIN <= SpecId < PRAGUE with Some(c) it "
+        "adds the EIP-7702 access cost of the delegate (2600/100) although EIP-7702 is not active (not producible by the journal)",
+        "Kani stand-in for get_tokens_in_calldata / calculate_initial_tx_gas is BOUNDED (lengths, shapes, six SpecIds); SpecIds between "
+        "the six representatives and longer inputs are covered only by the uniformity of the code, not by a proof",
         "calc_tx_floor_cost: 21000 + 10 * tokens_in_calldata <= u64::MAX (call-site fact: tokens <= 17 * calldata length)",
         "oracle reading: SpecId::CONSTANTINOPLE priced as Petersburg (EIP-1283 never live on mainnet)",
         "machine arithmetic is NOT treated as mathematical: every + - * on u64/i64 in the extracted bodies is an overflow obligation",
-        "get_tokens_in_calldata / calculate_initial_tx_gas are outside this unit (iterator adapters): intrinsic gas not proved",
+        "get_tokens_in_calldata / calculate_initial_tx_gas are outside the Verus unit (iterator adapters): intrinsic gas not proved, bounded only",
     ],
 )
